@@ -194,4 +194,30 @@ theorem drain_yields {R : Nat} (m : Map) (take : Nat) (forget : Bool) (o : Orc) 
           exact (find_loc h hf).2.2
       cases forget <;> simp only [Bool.false_eq_true, if_false, if_true, OkOr] <;> exact ⟨_, hmem, rfl⟩
 
+/-- `into_iter()` pulled `take` times then dropped: what it yields are stored entries (a prefix of
+    the old-table-first sequence); everything else is dropped with the map — nothing is kept. -/
+theorem into_iter_yields {R : Nat} (m : Map) (take : Nat) (o : Orc) (h : Inv R m) :
+    OkOr (Map.intoIter m take o) (fun out =>
+      ∃ all : List Entry, (∀ e ∈ all, e ∈ m.ents) ∧ out.ret = .ents (all.take take) ∧
+        out.returned = idsOf (all.take take)) := by
+  unfold Map.intoIter
+  split
+  · simp [OkOr]
+  · split
+    · rename_i hbad
+      rw [overCount_false m h] at hbad
+      cases hbad
+    · dsimp only
+      have hmem : ∀ e ∈ o.calls.filterMap (fun k => (m.find k).map (·.2)), e ∈ m.ents := by
+        intro e he
+        obtain ⟨k, _, hk⟩ := List.mem_filterMap.1 he
+        cases hf : m.find k with
+        | none => rw [hf] at hk; cases hk
+        | some p =>
+          obtain ⟨loc, e'⟩ := p
+          rw [hf] at hk; simp at hk; subst hk
+          exact (find_loc h hf).2.2
+      simp only [OkOr]
+      exact ⟨_, hmem, rfl, rfl⟩
+
 end Griddle.C08
